@@ -106,6 +106,9 @@ def run(ctx):
 
         chk.rule("C06.e", "key contract (imported from C03.b/e): every construction of a Key stores a hash that belongs to the (name, labels) it is built with, and <Key as Hashable>::hashable is get_hash()", floor=4)
         check_key_constructions(chk, "C06.e", m)
+        from props.common import import_rules
+
+        import_rules(ctx, "C03", {"C03.a"}, "C06.f", "imported from C03 (lookups compare keys with == and find them by hash): for every label-count class Key's hasher, == and cmp use the same canonical form — otherwise two equal keys hash differently and get two storages", floor=5)
         hf = [x for x in u.fns if x.name == "hashable" and x.j.get("impl_self") == "metrics::key::Key"]
         if hf:
             r = strip_sym(Sym(hf[0]).local(0))
